@@ -298,8 +298,12 @@ func par2GoroutineInvariance(r *Run) {
 	if t.Bool(1, 40, "multi-megabyte-file") {
 		// inputs of several MiB (work may be split differently for them)
 		size := (2 << 20) + t.Draw(2<<20, "mb-size")
-		if size/w.S > 20000 {
-			size = 20000*w.S - 3
+		others := w.N - (len(w.Files[0].Data)+w.S-1)/w.S
+		if room := 30000 - others; (size+w.S-1)/w.S > room {
+			if room < 1 {
+				room = 1
+			}
+			size = room*w.S - 3
 		}
 		data := expandContent(ckRandom, t.Draw64(0, "mb-seed"), size, 64)
 		w.N += (size+w.S-1)/w.S - (len(w.Files[0].Data)+w.S-1)/w.S
